@@ -26,7 +26,9 @@ PROPERTY = 'C18'
 RULE = ('Hypothesis-drawn (schedule seed, 2-4 threads, switch probability 0.5-5%, per-thread call sequences of 3-6 read-only '
         'operations over the document pools of C10) x 4 schema sources; each run races the build of one unbuilt schema '
         'object and then validates / decodes from all threads under a controlled call-granularity scheduler with '
-        'cooperative locks; plus free-running runs with sys.setswitchinterval(1e-6). Non-trivial: at least one context '
+        'cooperative locks; plus free-running runs with sys.setswitchinterval(1e-6); plus systematic single-preemption '
+        'schedules: thread 0 builds and is preempted at each line of XsdGlobals.build() and each call of depth <= 2 (thorough: 3) '
+        'below it, thread 1 then builds and validates / decodes every document of the pool. Non-trivial: at least one context '
         'switch happened while some thread was inside build(); distinct = distinct (pool, schedule seed, threads, '
         'probability)')
 ASSUMPTIONS = [
@@ -51,6 +53,11 @@ class Sched:
         self.switches_in_build = 0
         self.points = 0
         self.tls = threading.local()
+        # systematic single-preemption mode: thread 0 is preempted at its k-th shallow point inside build()
+        self.preempt_at = None
+        self.max_depth = 2
+        self.shallow = 0
+        self.fired = False
 
     def start(self):
         self.events[self.rng.randrange(self.n)].set()
@@ -141,9 +148,43 @@ def uninstall_coop_locks():
     xmlschema.resources.xml_resource.XMLResource._context_lock = RealLock()
 
 
+BUILD_CODE = xmlschema.validators.xsd_globals.XsdGlobals.build.__code__
+
+
+def shallow_point(sc):
+    """One more shallow point of thread 0 inside XsdGlobals.build(); preempt when it is the chosen one."""
+    if getattr(sc.tls, 'i', None) != 0 or not sc.inbuild[0]:
+        return
+    sc.shallow += 1
+    if sc.shallow - 1 == sc.preempt_at and not sc.fired:
+        sc.fired = True
+        sc.point(force=True)
+
+
+def line_tracer(frame, event, arg):
+    sc = SCHED
+    if event == 'line' and sc is not None and sc.preempt_at is not None:
+        shallow_point(sc)
+    return line_tracer
+
+
 def tracer(frame, event, arg):
-    if event == 'call' and frame.f_code.co_filename.startswith(REPO_PKG) and SCHED is not None:
-        SCHED.point()
+    sc = SCHED
+    if event != 'call' or sc is None or not frame.f_code.co_filename.startswith(REPO_PKG):
+        return None
+    if sc.preempt_at is None:
+        sc.point()
+        return None
+    if frame.f_code is BUILD_CODE:
+        return line_tracer            # every line of build() itself is a preemption point
+    f = frame.f_back
+    for _ in range(sc.max_depth):
+        if f is None:
+            break
+        if f.f_code is BUILD_CODE:
+            shallow_point(sc)
+            break
+        f = f.f_back
     return None
 
 
@@ -172,8 +213,10 @@ def baseline(pool_index):
     return _BASE[pool_index]
 
 
-def run_schedule(pool_index, seed, nthreads, prob, plans, st, controlled=True):
-    """plans: per thread list of (op index, doc index).  Returns violation records."""
+def run_schedule(pool_index, seed, nthreads, prob, plans, st, controlled=True, preempt=None):
+    """plans: per thread list of (op index, doc index).  Returns violation records.
+    preempt=(k, depth): single-preemption schedule (thread 0 builds and is preempted at its k-th point
+    of call depth <= depth inside build(); thread 1 then runs to completion unless it blocks)."""
     global SCHED
     out = []
     label, cls, src, docs, ref, ref_sig = baseline(pool_index)
@@ -184,6 +227,8 @@ def run_schedule(pool_index, seed, nthreads, prob, plans, st, controlled=True):
     if controlled:
         install_coop_locks(s)
         SCHED = Sched(seed, nthreads, prob)
+        if preempt is not None:
+            SCHED.preempt_at, SCHED.max_depth = preempt
     else:
         old_interval = sys.getswitchinterval()
         sys.setswitchinterval(1e-6)
@@ -218,7 +263,10 @@ def run_schedule(pool_index, seed, nthreads, prob, plans, st, controlled=True):
     for t in threads:
         t.start()
     if controlled:
-        SCHED.start()
+        if preempt is not None:
+            SCHED.events[0].set()
+        else:
+            SCHED.start()
     for t in threads:
         t.join(90)
     stuck = any(t.is_alive() for t in threads)
@@ -234,8 +282,11 @@ def run_schedule(pool_index, seed, nthreads, prob, plans, st, controlled=True):
         st.cls('watchdog_expired')
         return out
     inp = {'pool': pool_index, 'label': label, 'seed': seed, 'threads': nthreads, 'prob': prob, 'plans': plans,
-           'controlled': controlled}
-    key = '%s|%s|%s|%s|%s' % (label, seed, nthreads, prob, controlled)
+           'controlled': controlled, 'preempt': preempt}
+    key = '%s|%s|%s|%s|%s|%s' % (label, seed, nthreads, prob, controlled, preempt)
+    if preempt is not None:
+        st.info['shallow_points_of_build'] = max(st.info.get('shallow_points_of_build', 0), sched.shallow)
+        st.cls('preempted_inside_build' if sched.fired else 'preemption_point_not_reached')
     if controlled:
         st.info['switches'] = st.info.get('switches', 0) + sched.switches
         st.info['schedule_points'] = st.info.get('schedule_points', 0) + sched.points
@@ -267,13 +318,43 @@ def run_schedule(pool_index, seed, nthreads, prob, plans, st, controlled=True):
 
 def shards(tier, seed):
     return [('ctl', p, k, tier, seed) for p in (0, 2, 4, 5) for k in range(3)] + \
-           [('free', p, 0, tier, seed) for p in (0, 2, 4, 5)]
+           [('free', p, 0, tier, seed) for p in (0, 2, 4, 5)] + \
+           [('pre', p, k, tier, seed) for p in (0, 2, 4, 5) for k in range(3)]
+
+
+def full_plan(pool_index):
+    """errors and lax decoding of every document of the pool."""
+    n = len(baseline(pool_index)[3])
+    return [(0, i) for i in range(n)] + [(2, i) for i in range(n)]
+
+
+def count_shallow(pool_index, depth):
+    st = core.Stats()
+    plan = [(0, 0)]
+    global SCHED
+    run_schedule(pool_index, 0, 2, 0.0, [plan, plan], st, True, (10 ** 9, depth))
+    return st.info.get('shallow_points_of_build', 0)
 
 
 def run_shard(desc):
     from hypothesis import strategies as hst
     kind, p, k, tier, seed = desc
     st = core.Stats()
+    if kind == 'pre':
+        # systematic: ONE preemption at every shallow point (lines of build() and calls of depth <= d below it)
+        depth = 3 if tier == 'thorough' else 2
+        total = count_shallow(p, depth)
+        plan = full_plan(p)
+        ks = list(range(total))
+        if tier != 'thorough' and total > 360:
+            step = total / 360.0
+            ks = sorted({int(i * step) for i in range(360)})
+        for kk in ks[k::3]:
+            for r in run_schedule(p, 0, 2, 0.0, [plan, plan], st, True, (kk, depth)):
+                core.report(st, PROPERTY, r)
+        st.sample({'pool': baseline(p)[0], 'single preemption at each of': '%d of %d shallow points (depth <= %d) of build()'
+                   % (len(ks), total, depth), 'then': 'thread 1 builds and runs errors + lax decode of every document'})
+        return st
     plan = hst.lists(hst.tuples(hst.integers(0, 50), hst.integers(0, 50)), min_size=3, max_size=6)
     if kind == 'ctl':
         n = 150 if tier == "thorough" else 20
@@ -300,6 +381,7 @@ def replay(record):
     st = core.Stats()
     inp = record['input']
     recs = []
+    pre = tuple(inp['preempt']) if inp.get('preempt') else None
     for _ in range(1 if inp['controlled'] else 20):
-        recs += run_schedule(inp['pool'], inp['seed'], inp['threads'], inp['prob'], inp['plans'], st, inp['controlled'])
+        recs += run_schedule(inp['pool'], inp['seed'], inp['threads'], inp['prob'], inp['plans'], st, inp['controlled'], pre)
     return [r for r in recs if r['kind'] == record['kind']][:1]
